@@ -172,6 +172,21 @@ def float_solver(chk: Check, n):
             if not (p_at >= power - 1e-9 and p_below < power + 1e-9):
                 chk.fail("n_obs is not the smallest integer sample size whose power reaches the target",
                          dict(input=inp, effect=r.effect_size, n_obs=nn, power_at=p_at, power_below=p_below))
+    # a covariate column that is constant (variance exactly 0): the unadjusted answer, not an exception
+    dconst = A(2000, {"x": 5.0, "c": 3.0}, {"x": 4.0, "c": 0.0}, {("c", "x"): 0.0})
+    dplain = A(2000, {"x": 5.0}, {"x": 4.0}, {})
+    for par, kw in (("effect_size", dict(n_obs=1000)), ("n_obs", dict(rel_effect_size=0.05)), ("power", dict(rel_effect_size=0.05))):
+        chk.case(("constant-covariate", par))
+        chk.branch("float:constant-covariate")
+        try:
+            a = tt.Mean("x", "c", **kw).solve_power(dconst, par)[0]
+            b = tt.Mean("x", **kw).solve_power(dplain, par)[0]
+            if any(abs(float(u) - float(v)) > 1e-9 * max(abs(float(v)), 1e-300) for u, v in zip(a, b)):
+                chk.fail("a covariate with zero variance changes the answer of solve_power",
+                         dict(parameter=par, with_covariate=[str(x) for x in a], without=[str(x) for x in b]))
+        except Exception as ex:  # noqa: BLE001
+            chk.fail(f"solve_power(…, '{par}') raised on a valid request (constant covariate column)",
+                     dict(parameter=par, error=repr(ex)))
     # corpus: the two inputs that raised before fixes 6d61d9e / 8d7e1b0
     d = A(1000, {"x": 5.0}, {"x": 4.0}, {})
     for kw in (dict(ratio=2), dict(ratio=0.1, equal_var=True, use_t=True)):
